@@ -1,6 +1,7 @@
 """Column name sanitization and uniquification utilities."""
 
 from __future__ import annotations
+import keyword
 import re
 
 
@@ -40,7 +41,7 @@ def _sanitize_user_name(name) -> str | None:
 	- Replace runs of non-alphanumeric chars (except _) with single _
 	- Strip leading/trailing underscores
 	- Prefix with 'c' if starts with digit
-	- Append '_' if conflicts with reserved method names
+	- Append '_' if conflicts with reserved method names or Python keywords
 	- Return None if empty after sanitization
 	"""
 	if not isinstance(name, str):
@@ -67,8 +68,8 @@ def _sanitize_user_name(name) -> str | None:
 	if re.match(r'^.+__\d+$', sanitized):
 		sanitized = sanitized + '_'
 	
-	# Conflicts with reserved name → append _
-	if sanitized in _get_reserved_names():
+	# Conflicts with reserved name, or is a Python keyword (t.class does not parse) → append _
+	if sanitized in _get_reserved_names() or keyword.iskeyword(sanitized):
 		sanitized = sanitized + '_'
 	
 	return sanitized
